@@ -62,7 +62,7 @@ class Prop:
     engine = "VT"
     quick_runs = 250000
     thorough_runs = 3000000
-    rule = ("seeded histories of schedule_absolute/schedule_relative/schedule calls (past, present and future due times, ties), actions that "
+    rule = ("seeded histories of schedule_absolute/schedule_relative/schedule calls (past, present and future due times, ties), optionally a run of 101-160 strictly advancing actions, actions that "
             "schedule further actions, cancel others and call stop(), interleaved with advance_to/advance_by/sleep/start, on "
             "VirtualTimeScheduler, TestScheduler and HistoricalScheduler (datetime clock); invocation order, clock at every invocation, "
             "clock after every driver call, raised range errors and never-run cancelled actions are compared with an independent reference "
@@ -99,6 +99,24 @@ class Prop:
                 driver.append(["start"])
             elif ids:
                 driver.append(["cancel", rng.choice(ids)])
+        if rng.random() < 0.12:
+            # a long run of ordinary, strictly advancing actions (more than the scheduler's anti-spin threshold of 100) ahead of
+            # the rest: whatever the scheduler counts must not leak into how later ties are run
+            n, t0, dt = rng.choice([101, 110, 130, 160]), rng.choice([0, 1, 3]), rng.choice([0.25, 0.5, 1])
+            series = [{"id": len(ids) + i, "kind": "abs", "t": t0 + i * dt, "children": [], "cancel": [], "stop": False} for i in range(n)]
+            ids.extend(a["id"] for a in series)
+            # first: the clock is still 0, every due time of the series lies ahead; no sleep(), which would turn the part of the
+            # series it jumps over into one instant of more than 100 late actions (the anti-spin bump, C29's subject)
+            # (the same goes for stop(): an advance_to cut short by it still moves the clock to its target)
+            driver = [["series", series]] + [d for d in driver if d[0] != "sleep"]
+
+            def nostop(a):
+                a["stop"] = False
+                for c in a["children"]:
+                    nostop(c)
+            for d in driver:
+                if d[0] == "sched":
+                    nostop(d[1])
         driver.append(["start"])
         # actions cancelling other actions
         def walk(a):
@@ -147,6 +165,9 @@ class Prop:
             try:
                 if d[0] == "sched":
                     sched(d[1], s)
+                elif d[0] == "series":
+                    for a in d[1]:
+                        sched(a, s)
                 elif d[0] == "advance_to":
                     s.advance_to(vt.UTC0 + timedelta(seconds=d[1]) if hist else float(d[1]))
                 elif d[0] == "advance_by":
@@ -193,6 +214,9 @@ class Prop:
             err = None
             if d[0] == "sched":
                 sched(d[1])
+            elif d[0] == "series":
+                for a in d[1]:
+                    sched(a)
             elif d[0] == "advance_to":
                 err = ref.advance_to(float(d[1]), body)
             elif d[0] == "advance_by":
